@@ -275,7 +275,14 @@ func (dsm *DsManager) DeleteDataset(name string) error {
 	dsm.store.datasets.Delete(name)
 	dsm.store.datasetsByInternalID.Delete(existingDataset.InternalID)
 	key := existingDataset.getStorageKey()
-	err := dsm.store.deleteValue(key)
+	// remove the dataset record and persist the deleted-set in one transaction. a crash between the two
+	// would leave the data of a dataset that no longer exists visible to unscoped reads forever
+	deletedIncludingThis := make(map[uint32]bool)
+	for k, v := range dsm.store.deletedDatasets {
+		deletedIncludingThis[k] = v
+	}
+	deletedIncludingThis[existingDataset.InternalID] = true
+	err := dsm.store.deleteValueAndStoreObject(key, StoreMetaIndex, "deleteddatasets", deletedIncludingThis)
 	if err != nil {
 		return err
 	}
